@@ -1,6 +1,6 @@
 (* C15 - replacement strings follow the $N and backslash rules exactly.
    Only statements, pins and assumption reports live here; proofs are in Proofs/. *)
-From RX Require Import Base.Prelude Spec.Repl Model.Engine Model.Api Proofs.ReplProof.
+From RX Require Import Base.Prelude Spec.Repl Model.Engine Model.Matcher Model.Api Proofs.ReplProof Proofs.ScanFacts.
 
 (* The faithful expansion loop of ReMatcher::replace (index arithmetic, the >9-groups digit loop,
    the simple_replacement flag) equals the replacement grammar of Spec/Repl.v: for every
@@ -21,6 +21,14 @@ Theorem C15_parse_total :
   forall (r : list N) (maxc : nat), parse_repl maxc r <> PFuel.
 Proof. exact parse_repl_total. Qed.
 
+(* text outside matches is copied unchanged (C04_replace_joins_pieces_partial); an input without
+   matches is returned as is, whatever the replacement string (even an invalid one) *)
+Theorem C15_no_match_returns_input :
+  forall matchf input repl maxparens literal s0,
+    (forall s, match matchf 0 s with MFalse _ => True | _ => False end) ->
+    replace_loop matchf literal maxparens input repl (length input + 2) 0 s0 [] true false = Ok input.
+Proof. intros. apply replace_no_match; assumption. Qed.
+
 (* non-vacuity: "$1x\$$0" with one group, "$12" with 12 groups, and an invalid string *)
 Example C15_ex1 :
   expand [36;49;120;92;36;36;48]%N 1 (fun g => Ok (match g with 0 => Some [119]%N | 1 => Some [97;98]%N | _ => None end)) []
@@ -33,3 +41,4 @@ Proof. vm_compute. repeat split. Qed.
 
 Print Assumptions C15_expand.
 Print Assumptions C15_parse_total.
+Print Assumptions C15_no_match_returns_input.
